@@ -55,7 +55,7 @@ pub mod verif_api {
         context::verif_access::*, cursor::verif_access::*, wait::verif_access::*,
     };
     pub(crate) fn cursor_reader(
-        cursor: &std::sync::atomic::AtomicUsize,
+        cursor: &crate::verif::atomic::AtomicUsize,
     ) -> super::cursor::PublishedCursorReader<'_> {
         super::cursor::verif_access::reader(cursor)
     }
@@ -355,7 +355,7 @@ where
             finality_idx as i64,
             2,
             4,
-            self.scheduler_ctx.unconfirmed_timestamp(finality_idx) as i64,
+            self.scheduler_ctx.verif_unconfirmed_timestamp(finality_idx) as i64,
             effective_lower_ts as i64,
             lower_ts as i64,
         );
